@@ -7,8 +7,8 @@
    not yet covered by a theorem are decided by the implementation <-> specification <->
    hardware differential run only (listed as unproved_forms in the evidence). *)
 From Coq Require Import ZArith Bool List.
-From AxV Require Import Bits Outcome Codes Iced State Rt Mem Trace Exec ExecP FrameTac FrameP RegFile RegsP ISA CodeSem IsaP OperandP MovP ByteStore RmP AluRmP Alu32P DivP Examples.
-From AxG Require Import Flags Regs Operand Helpers Dispatch Frame I_lea I_mov I_div I_idiv I_cmovae I_cmove I_cmovne.
+From AxV Require Import Bits Outcome Codes Iced State Rt Mem Trace Exec ExecP FrameTac FrameP RegFile RegsP ISA CodeSem IsaP OperandP MovP ByteStore RmP AluRmP Alu32P MovxP SimpleP DivP Examples.
+From AxG Require Import Flags Regs Operand Helpers Dispatch Frame I_lea I_mov I_div I_idiv I_cmovae I_cmove I_cmovne I_movsxd I_movzx I_cdqe I_cqo I_cdq I_cld I_nop I_endbr64.
 Local Open Scope Z_scope.
 
 (* apart from registers, flags, memory contents, FS/GS, the trace and the call stack,
@@ -59,6 +59,54 @@ Proof.
   - exact (cmovae_r32_rm32_refines c i s Hwf HI Hn K0 H0 Hs Ec).
   - exact (cmove_r32_rm32_refines c i s Hwf HI Hn K0 H0 Hs Ec).
   - exact (cmovne_r32_rm32_refines c i s Hwf HI Hn K0 H0 Hs Ec).
+Qed.
+
+(* MOVSXD r64, r/m32 and MOVZX r32/r64, r/m8: sign / zero extension of a register or memory source *)
+Theorem C01_movsxd_r64_rm32 : forall c i s,
+  wf_regs s -> Inv (mem s) -> i_op_count i = 2 -> i_op_kind i 0 = OK_Register ->
+  is_gpr64 (i_op_register i 0) = true -> rm32_shape i 1 -> i_code i = C_Movsxd_r64_rm32 ->
+  match isa_exec SMovsxd i s with
+  | IDone s' u => instr_movsxd_r64_rm32 c i s = (Ok tt, s') /\ u = 0
+  | IFault FMem => exists e, instr_movsxd_r64_rm32 c i s = (Err e, s)
+  | IFault _ => False
+  end.
+Proof. exact movsxd_r64_rm32_refines. Qed.
+
+Theorem C01_movzx_r32_rm8 : forall c i s,
+  wf_regs s -> Inv (mem s) -> i_op_count i = 2 -> i_op_kind i 0 = OK_Register -> rm8_shape i 1 ->
+  i_code i = C_Movzx_r32_rm8 -> is_gpr32 (i_op_register i 0) = true ->
+  match isa_exec (SMovzx 32 8) i s with
+  | IDone s' u => instr_movzx_r32_rm8 c i s = (Ok tt, s') /\ u = 0
+  | IFault FMem => exists e, instr_movzx_r32_rm8 c i s = (Err e, s)
+  | IFault _ => False
+  end.
+Proof. exact movzx_r32_rm8_refines. Qed.
+
+Theorem C01_movzx_r64_rm8 : forall c i s,
+  wf_regs s -> Inv (mem s) -> i_op_count i = 2 -> i_op_kind i 0 = OK_Register -> rm8_shape i 1 ->
+  i_code i = C_Movzx_r64_rm8 -> is_gpr64 (i_op_register i 0) = true ->
+  match isa_exec (SMovzx 64 8) i s with
+  | IDone s' u => instr_movzx_r64_rm8 c i s = (Ok tt, s') /\ u = 0
+  | IFault FMem => exists e, instr_movzx_r64_rm8 c i s = (Err e, s)
+  | IFault _ => False
+  end.
+Proof. exact movzx_r64_rm8_refines. Qed.
+
+(* the register-only instructions: CDQE, CQO, CDQ, CLD, the six NOP forms and ENDBR64 *)
+Theorem C01_simple : forall c i s, wf_regs s ->
+  (i_code i = C_Cdqe -> exists s', isa_exec SCdqe i s = IDone s' 0 /\ instr_cdqe c i s = (Ok tt, s')) /\
+  (i_code i = C_Cqo -> exists s', isa_exec (SCwd 64) i s = IDone s' 0 /\ instr_cqo c i s = (Ok tt, s')) /\
+  (i_code i = C_Cdq -> exists s', isa_exec (SCwd 32) i s = IDone s' 0 /\ instr_cdq c i s = (Ok tt, s')) /\
+  (i_code i = C_Cld -> 0 <= rflags s < 2 ^ 64 -> exists s', isa_exec SCld i s = IDone s' 0 /\ instr_cld c i s = (Ok tt, s')) /\
+  (i_code i = C_Nopw -> instr_nopw c i s = (Ok tt, s)) /\ (i_code i = C_Nopd -> instr_nopd c i s = (Ok tt, s)) /\
+  (i_code i = C_Nopq -> instr_nopq c i s = (Ok tt, s)) /\ (i_code i = C_Nop_rm16 -> instr_nop_rm16 c i s = (Ok tt, s)) /\
+  (i_code i = C_Nop_rm32 -> instr_nop_rm32 c i s = (Ok tt, s)) /\ (i_code i = C_Nop_rm64 -> instr_nop_rm64 c i s = (Ok tt, s)) /\
+  (i_code i = C_Endbr64 -> instr_endbr64 c i s = (Ok tt, s)).
+Proof.
+  intros c i s Hwf.
+  split; [intros Ec; destruct (cdqe_refines c i s Hwf Ec) as (E & s' & I); exists s'; split; [exact I|rewrite I in E; exact E]|].
+  split; [exact (cqo_refines c i s Hwf)|]. split; [exact (cdq_refines c i s Hwf)|]. split; [exact (cld_refines c i s)|].
+  exact (nop_refines c i s).
 Qed.
 
 (* DIV r/m64: quotient and remainder of RDX:RAX by the register or memory divisor (the complete
@@ -140,3 +188,7 @@ Print Assumptions C01_idiv_rm64_partial.
 Print Assumptions C01_idiv64_negative_divisor_refuted.
 Print Assumptions C01_mov_cmov_r64_rm64.
 Print Assumptions C01_mov_cmov_r32_rm32.
+Print Assumptions C01_movsxd_r64_rm32.
+Print Assumptions C01_movzx_r32_rm8.
+Print Assumptions C01_movzx_r64_rm8.
+Print Assumptions C01_simple.
